@@ -55,7 +55,7 @@ func (o *goSliceObject) setLength(value Value) {
 		panic(goValueError(errors.New("RangeError: Invalid array length")))
 	case wantInt == o.value.Len():
 		// No change needed.
-	case wantInt < o.value.Cap():
+	case wantInt <= o.value.Cap():
 		// Fits in current capacity.
 		if o.value.CanSet() {
 			o.value.SetLen(wantInt)
